@@ -401,7 +401,7 @@ def table_cycle(ck, F):
     table = {}
     for a in (False, True):
         for r in (False, True):
-            ps = I.run({"absolute_column": a, "absolute_row": r})
+            ps = I.run({(ns.local_name(1) or "_1"): a, (ns.local_name(2) or "_2"): r})      # next_state(absolute_column, absolute_row)
             rets = {tuple(p.ret[1]) if isinstance(p.ret, tuple) and p.ret[0] == "tuple" else None for p in ps}
             ok = len(rets) == 1 and None not in rets
             ck.ob(R, "next_state|(%s,%s)|deterministic" % (a, r), ok, "next_state(%s,%s) yields %s" % (a, r, rets), ns.file, ns.line,
@@ -424,7 +424,16 @@ def table_cycle(ck, F):
     ck.ob(R, "cycle_endpoint|uses-next_state", len(nsc) == 1, "cycle_endpoint calls next_state %d times" % len(nsc), ce.file, ce.line)
     _one_axis_tables(ck, F, ce, R)
     # what is appended to `result`
-    res = [l for l in ce.local_by_name("result")]
+    # the String the function returns (found by dataflow into the return place, not by its name)
+    res = []
+    for bi, si, st in ce.stmts():
+        if st["p"]["l"] == 0 and not place_proj(st["p"]) and st["rv"]["k"] == "use":
+            from mir import op_place as _opl
+            pl = _opl(st["rv"]["o"])
+            if pl is not None and not place_proj(pl) and "String" in ce.locals[pl["l"]]:
+                res.append(pl["l"])
+    if not res:
+        res = [l for l in ce.local_by_name("result")]
     pushes = []
     for bi, t in ce.calls():
         q = ce.callee_q(t) or ""
